@@ -67,6 +67,7 @@ type Options struct {
 	StartOffset      time.Duration // virtual time at boot relative to Epoch
 	InvalidPodFaults bool          // the fault plan may answer Pod creates with 422 Invalid (a legitimate source of admission errors)
 	StoreYield       bool          // make the active-job store's compare-and-add a scheduling point
+	DeepLag          bool          // in lag mode the starved cache falls behind by many syncs, not just a few steps
 	TraceCap         int
 }
 
@@ -223,6 +224,9 @@ func NewWorld(opt Options) *World {
 	w.GC = NewClients(w.API, "gc")
 	w.kube = newKubelet(w, opt.Kubelet)
 	w.lagWeight = map[Kind]int{KJob: 10, KJobConfig: 10, KPod: 10}
+	if opt.DeepLag {
+		w.lagWeight = map[Kind]int{KJob: 40, KJobConfig: 40, KPod: 40}
+	}
 	if opt.Mode == "lag" {
 		// one or two caches lag heavily in this case
 		kinds := []Kind{KJob, KJobConfig, KPod}
